@@ -168,7 +168,8 @@ def fits_bounded_instance(tied_only=False):
     from pb_bss.distribution import CACGMMTrainer, CWMMTrainer, GMMTrainer, VMFMMTrainer, GCACGMMTrainer, VMFCACGMMTrainer, CBMMTrainer
 
     def make(B):
-        return {'which': B.choose('which', ['cbmm-tied']) if tied_only else B.choose('which', ['cacgmm', 'cacgmm-mask', 'cwmm', 'gmm-full', 'gmm-diagonal', 'gmm-spherical', 'vmfmm', 'gcacgmm', 'vmfcacgmm', 'cbmm', 'cbmm-tied', 'gcacgmm-ipa', 'vmfcacgmm-ipa', 'gcacgmm-ipa', 'vmfcacgmm-ipa']),
+        return {'which': B.choose('which', ['cbmm-tied']) if tied_only else B.choose('which', ['cacgmm', 'cacgmm-mask', 'cwmm', 'gmm-full', 'gmm-diagonal', 'gmm-spherical', 'vmfmm', 'gcacgmm', 'vmfcacgmm', 'cbmm', 'cbmm-tied', 'gcacgmm-ipa', 'vmfcacgmm-ipa', 'gcacgmm-ipa', 'vmfcacgmm-ipa',
+                                                                                       'cacgmm-aligner', 'cwmm-aligner']),
                 'K': B.choose('K', [2, 3, 3, 4]), 'it': B.choose('it', [1, 2, 5, 20]), 'wca': B.choose('wca', [(-1,), (-3,), (-3, -1)]),
                 'seed': B.choose('seed', list(range(3000))), 'd': B.given('d', np.zeros(1))}
 
@@ -178,6 +179,8 @@ def fits_bounded_instance(tied_only=False):
         F, N, D = 2, 30, 3
         if inp['seed'] % 3 == 0:
             F = K                # as many independent problems as classes: a class axis mistaken for the leading axis broadcasts
+        if which.endswith('-aligner'):
+            F = 3                # (the aligners insist on an odd number of bins)
         cplx = not (which.startswith('gmm') or which == 'vmfmm')
         tied = which == 'cbmm-tied'
         if tied:
@@ -219,6 +222,13 @@ def fits_bounded_instance(tied_only=False):
                 m = tr.fit(y, emb, initialization=ii, iterations=max(it, 2) if ipa else it, weight_constant_axis=inp['wca'],
                            inline_permutation_alignment=ipa)
                 return m.predict(y, emb)
+            if which in ('cacgmm-aligner', 'cwmm-aligner'):
+                # the inline aligner option of the spatial mixture trainers (weights tied over frequency), any metric
+                from pb_bss import permutation_alignment as pa_
+                al = pa_.GreedyPermutationAlignment(['cos', 'euclidean'][inp['seed'] % 2])
+                cls_ = CACGMMTrainer if which == 'cacgmm-aligner' else CWMMTrainer
+                m = trainer(cls_).fit(y, initialization=ii, iterations=max(it, 2), weight_constant_axis=(-3,), inline_permutation_aligner=al)
+                return m.predict(y)
             if which == 'cacgmm-mask':
                 # tied (uniform) weights for every third scene: no class is preferred a priori
                 m = trainer(CACGMMTrainer).fit(y, initialization=ii * mm, iterations=max(it, 2), source_activity_mask=mm,
@@ -241,6 +251,37 @@ def fits_bounded_instance(tied_only=False):
     return Instance('C05', DN + '*Trainer.fit', 'bounded-relabelled-fits-nearly-tied-classes' if tied_only else 'bounded-relabelled-fits', make, call, ensures,
                     mode='bounded', bounded_n=60 if tied_only else 80, frame=False,
                     raises=(ValueError, np.linalg.LinAlgError))
+
+
+def assignment_relabelling_bounded_instance():
+    """The assignment used by the inline aligners has no preferred class index: relabelling the reference classes (rows) and the
+    estimated classes (columns) of a tie-free score matrix relabels the assignment, for both algorithms and stacked bins."""
+    from pb_bss import permutation_alignment as pa
+
+    def make(B):
+        return {'K': B.choose('K', [2, 3, 4, 5]), 'F': B.choose('F', [None, 1, 3]), 'alg': B.choose('alg', ['greedy', 'greedy', 'optimal']),
+                'seed': B.choose('seed', list(range(4000))), 'd': B.given('d', np.zeros(1))}
+
+    def call(inp):
+        rng = np.random.RandomState(inp['seed'])
+        K, F = inp['K'], inp['F']
+        shape = (K, K) if F is None else (F, K, K)
+        s = rng.normal(size=shape)
+        if inp['seed'] % 2:
+            # two estimated classes compete for the same reference class (one dominant column): conflicts are the common case
+            s[..., :, 0] += 3.0
+        P, Q = rng.permutation(K), rng.permutation(K)
+        m = np.asarray(pa._mapping_from_score_matrix(s, inp['alg']))
+        m2 = np.asarray(pa._mapping_from_score_matrix(np.ascontiguousarray(s[..., P, :][..., :, Q]), inp['alg']))
+        return {'m': m, 'm2': m2, 'P': P, 'Q': Q}
+
+    def ensures(sp, inp, out):
+        m, m2, P, Q = out['m'], out['m2'], out['P'], out['Q']
+        Qinv = np.argsort(Q)
+        yield 'relabelled-score-matrix-gives-relabelled-assignment[%s]' % inp['alg'], bool(m.shape == m2.shape and np.array_equal(m2, Qinv[m[P]]))
+
+    return Instance('C05', 'pb_bss.permutation_alignment:_mapping_from_score_matrix', 'bounded-assignment-relabelling', make, call, ensures,
+                    mode='bounded', bounded_n=200, frame=False)
 
 
 def instances(tier):
@@ -273,4 +314,5 @@ def instances(tier):
         out.append(mstep_perm(kind, 3))
     out.append(fits_bounded_instance())
     out.append(fits_bounded_instance(tied_only=True))
+    out.append(assignment_relabelling_bounded_instance())
     return out
